@@ -392,6 +392,13 @@ def run_obligation(pid, obl, tier):
     timeout = obl.get("timeout", 600)
     if tier == "thorough":
         timeout = obl.get("timeout_thorough", timeout * 3)
+    else:
+        # the per-obligation limits were measured on an idle 16 core machine; a
+        # loaded or slower machine must not turn a passing obligation into an
+        # inconclusive one (vp check #6: frontend obligations, 170 s here,
+        # hit their 300 s limit).  The limit only bounds how long a hanging
+        # query is waited for, it never changes a verdict.
+        timeout = int(timeout * float(os.environ.get("VP_TIMEOUT_SCALE", "4")))
     rc, dt, rss, to = run_limited(cmd, timeout, obl.get("mem_gb", 16), wdir,
                                   os.path.join(wdir, "cbmc.json"))
     res["seconds"] = time.time() - t0
